@@ -145,7 +145,9 @@ class MultiAgentProblem(  # type: ignore[misc]
         return res
 
     def clone(self):
-        new_p = MultiAgentProblem(self._name, self._env)
+        new_p = MultiAgentProblem(
+            self._name, self._env, initial_defaults=self._initial_defaults.copy()
+        )
         new_p.ma_environment._fluents = self.ma_environment._fluents.copy()
         new_p.ma_environment._fluents_defaults = (
             self.ma_environment._fluents_defaults.copy()
